@@ -79,10 +79,13 @@ structure Match where
   subject : Str
   start : Nat
   stop : Nat
+  caps : Rx.Caps := []      -- what the groups captured
 deriving Repr, DecidableEq
 
 /-- `m.group()` / `m.group(0)` -/
 def Match.group (m : Match) : Str := (m.subject.drop m.start).take (m.stop - m.start)
+/-- `m.group(name)` for the group numbered `i`: `None` when the group did not take part in the match -/
+def Match.groupN (m : Match) (i : Nat) : Option Str := Rx.group m.caps i
 /-- `m.end()` -/
 def Match.end_ (m : Match) : Int := (m.stop : Int)
 
@@ -90,7 +93,7 @@ def Match.end_ (m : Match) : Int := (m.stop : Int)
     (negative positions do not count from the end here); `^` still means the real start of `s` -/
 def reMatchAt (r : Rx.RE) (s : Str) (pos : Int) : Option Match :=
   let p := if pos < 0 then 0 else min pos.toNat s.length
-  (Rx.pyMatchAt r s p).map fun st => { subject := s, start := p, stop := s.length - st.1.length }
+  (Rx.pyMatchAt r s p).map fun st => { subject := s, start := p, stop := s.length - st.1.length, caps := st.2 }
 
 /-- `rx.match(s)` -/
 def reMatch (r : Rx.RE) (s : Str) : Option Match := reMatchAt r s 0
